@@ -147,6 +147,10 @@ func deviations(op string) []dev {
 			dev{"born-with-article", func(r *row, b *brd) { r.uf = artTime }},
 			dev{"entry-deleted", func(r *row, b *brd) { r.a.entName = ".d" + artName[2:] }},
 			dev{"name-L", func(r *row, b *brd) { r.a.argName = "L" + artName[1:]; r.a.entName = r.a.argName }},
+			dev{"modified-old", func(r *row, b *brd) { r.a.modified = 1400000001 }},
+			dev{"modified-recent", func(r *row, b *brd) { r.a.modified = 1590000000 }},
+			dev{"modified-max", func(r *row, b *brd) { r.a.modified = 2147483647 }},
+			dev{"modified-neg", func(r *row, b *brd) { r.a.modified = -1 }},
 			dev{"mode-vote", func(r *row, b *brd) { r.a.mode |= mVOTE }},
 			dev{"mode-marked", func(r *row, b *brd) { r.a.mode |= mMARK }},
 			dev{"mode-solved", func(r *row, b *brd) { r.a.mode |= mSOLVE }},
@@ -204,6 +208,9 @@ func apply(op string, ds []dev) row {
 	return r
 }
 
+var hubs = map[string]bool{"sysop": true, "moderator": true, "unverified": true, "no-basic": true, "no-post": true, "friend": true,
+	"postmask": true, "hide": true, "violatelaw": true}
+
 var opList = []string{"newpost", "recommend", "editpost", "crosspost"}
 
 func emit(op string, r row) {
@@ -237,6 +244,8 @@ func generate() {
 		{"restricted"}, {"violatelaw"}, {"level-extra", "postmask"}, {"limit-days5", "days49"}, {"limit-bad3", "bad253"},
 		{"unverified"}, {"cd-act-15"}, {"cd-act-10"}, {"cooldown-board", "cd-act-0"}, {"nuser4001", "cd-act-1"},
 		{"nuser2001", "cd-act-2"}, {"nuser1001", "cd-act-3"}, {"owner-other"}, {"older-than-account"},
+		{"older-than-account", "modified-recent"}, {"older-than-account", "modified-max"}, {"born-with-article", "modified-old"},
+		{"owner-other", "modified-recent"},
 	}
 	for _, op := range opList {
 		byName := map[string]dev{}
@@ -260,7 +269,9 @@ func generate() {
 		ds := deviations(op)
 		for i := range ds {
 			for j := i + 1; j < len(ds); j++ {
-				if !th && run.R.Intn(100) >= 45 {
+				// pairs with one of the facts that switch whole clauses on or off (exemptions, short-cuts) are never
+				// sampled away
+				if !th && !hubs[ds[i].name] && !hubs[ds[j].name] && run.R.Intn(100) >= 45 {
 					continue
 				}
 				emit(op, apply(op, []dev{ds[i], ds[j]}))
@@ -288,6 +299,7 @@ func generate() {
 	}
 
 	friendHistories(th)
+	threadHistories(th)
 
 	// cool-down histories
 	for _, nu := range []int32{0, 30, 31, 1000, 1001, 2001, 4001} {
@@ -375,6 +387,35 @@ func boundaryGrids() {
 		for _, cd := range []string{"exp", "max", "neg", "negact"} {
 			for pt := 0; pt < 16; pt++ {
 				at(func(r *row, b *brd) { r.cd, r.pt = cd, pt })
+			}
+		}
+		// the moderator exemption: listed or not x PERM_BASIC x PERM_LOGINOK x PERM_BM, on boards where only a moderator gets
+		// through (limits the user does not meet; hidden board whose friend list does not name the user; both)
+		for bits := 0; bits < 16; bits++ {
+			for sc := 0; sc < 4; sc++ {
+				at(func(r *row, b *brd) {
+					b.bm = bits&1 != 0
+					if bits&2 == 0 {
+						r.ul &^= pBASIC
+					}
+					if bits&4 == 0 {
+						r.ul &^= pLOGINOK
+					}
+					if bits&8 != 0 {
+						r.ul |= pBM
+					}
+					switch sc {
+					case 0:
+						b.lg = 255
+					case 1:
+						b.lb, r.ub = 255, 1
+					case 2:
+						b.attr |= aHIDE | aPOSTMASK
+					case 3:
+						b.attr |= aHIDE | aPOSTMASK
+						b.lg = 255
+					}
+				})
 			}
 		}
 		for bit := 0; bit < 32; bit++ {
@@ -533,6 +574,52 @@ func friendHistories(th bool) {
 	for _, l := range []string{"reset friends newpost restricted", "reset friends newpost open L:u/P", "reset friends newpost restricted L:u",
 		"reset friends newpost restricted L:q/P", "reset friends newpost restricted L:u*0/P", "reset friends newpost restricted L:u*121/P",
 		"reset friends nosuch restricted P", "reset friends newpost restricted L:u:c/P", "reset friends newpost restricted P//P"} {
+		execLine(l)
+	}
+}
+
+// threadHistories: histories on one article.  The article exists under an id; other accounts comment on it, cross-post it
+// (forward comment) or a sysop edits it — each moves the entry's Modified — and in between the account `verifu` tries to
+// edit it: as the author (registered before the article), as an account registered at the very second of the article,
+// as a LATER account with the same id, or as a stranger (article under another id).
+func threadHistories(th bool) {
+	touches := []string{"", "R", "C", "E", "R/R", "R/E", "C/R", "E/C/R"}
+	for _, ao := range []string{"self", "other"} {
+		for _, at := range []int32{0, 1400000001, 1590000000} {
+			for _, tr := range []string{"Tl", "Ta", "Tb"} {
+				for _, t := range touches {
+					if !th && at != 0 && (tr != "Tl" || len(t) > 1) {
+						continue
+					}
+					st := tr
+					if t != "" {
+						st = tr + "/" + t + "/" + tr
+					}
+					execLine(fmt.Sprintf("reset thread ao=%s at=%d %s", ao, at, st))
+				}
+			}
+		}
+	}
+	nr := 10
+	if th {
+		nr = 200
+	}
+	all := []string{"R", "C", "E", "Ta", "Tb", "Tl", "Tl", "R"}
+	for j := 0; j < nr; j++ {
+		k := 2 + run.R.Intn(9)
+		var st []string
+		for len(st) < k {
+			st = append(st, all[run.R.Intn(len(all))])
+		}
+		st = append(st, "Tl")
+		ao := "self"
+		if run.R.Intn(4) == 0 {
+			ao = "other"
+		}
+		execLine(fmt.Sprintf("reset thread ao=%s at=%d %s", ao, []int32{0, 1400000001, 1590000000}[run.R.Intn(3)], strings.Join(st, "/")))
+	}
+	for _, l := range []string{"reset thread ao=self at=0", "reset thread ao=self at=0 R/E", "reset thread ao=nobody at=0 Tl", "reset thread ao=self at=x Tl",
+		"reset thread ao=self at=0 Tl/Q", "reset thread at=0 ao=self Tl"} {
 		execLine(l)
 	}
 }
